@@ -11,7 +11,8 @@ LEVEL_NOTE = ('no deductive part yet: the claim holds for the enumerated input t
               'histories; preferences are varied one at a time plus two joint profiles, not in all combinations (quick tier: string-valued spacing preferences only jointly); the rejected-call clause is run '
               'in log-only mode in the thorough tier only; rejection paths that no table entry reaches are not covered (the evidence lists the mutators that no input managed to get rejected); thirteen recorded findings are excluded by '
               'sharp classes (known/C11.json)')
-TECHNIQUE = ('bounded run-time contracts (snapshot-compare monitor) over the mechanically enumerated public mutators x rejected-at-every-stage input tables x prior states, each case on a freshly parsed '
+TECHNIQUE = ('VC generation + z3 for the exceptional postconditions of the mutators under contract (insertRule / deleteRule family, appendMedium / deleteMedium, removeProperty, appendSelector); '
+             'the statement as a whole is decided by bounded run-time contracts (snapshot-compare monitor) over the mechanically enumerated public mutators x rejected-at-every-stage input tables x prior states, each case on a freshly parsed '
              'state; read-only clause with a writable-twin oracle for calls that are not refused')
 DESIGN_REF = 'DESIGN.md section 3, C11'
 
@@ -20,3 +21,11 @@ def bounded(ctx):
     from bounded import c11
     c11.rejected(ctx)
     c11.readonly(ctx)
+
+
+# T1 (PyVC): the exceptional postconditions "a call refused with a DOM exception has written nothing" and the read-only guard of the mutators that are under
+# contract for other properties (the targets tagged C11 in their sidecars): CSSStyleSheet.insertRule / deleteRule, the nested insertRule / deleteRule of
+# @media and @page rules, _prepareInsertRule, MediaList.appendMedium / deleteMedium, CSSStyleDeclaration.removeProperty, SelectorList.appendSelector, and
+# the error handler (an error is raised iff raising mode is on). All other mutators are covered by the bounded snapshot monitor only.
+T1 = [('contracts.cssstylesheet', None), ('contracts.cssrule', None), ('contracts.medialist', None), ('contracts.cssstyledeclaration', None),
+      ('contracts.selectorlist', None), ('contracts.errorhandler', None)]
